@@ -1,7 +1,7 @@
 #!/bin/sh
 # Confirm a sub-agent's seeded change: tests pass with it, demo fails with it and passes without.
 #   tools/verify_seed.sh <PROP> <a|b>
-id=$1; v=$2; wt=/tmp/wt/$id; out=/tmp/wt/$id-out
+id=$1; v=$2; wt=/tmp/wt/$id; out=/tmp/wt/$id-out${OUTSFX:-}
 git -C $wt checkout -q -- . ; git -C $wt status --short | head -3
 /venv/bin/python /tmp/wt/with_repo.py $wt $out/demo_$v.py >/dev/null 2>&1; echo "demo on original: exit $?"
 git -C $wt apply $out/patch_$v.diff || { echo "patch does not apply"; exit 1; }
